@@ -22,8 +22,8 @@ WITNESS = {
 
 PLANS = {
     "C01": dict(
-        mc=[("MC_Core_q.cfg", "as-is code modulo known findings: pages 3, versions 2, WAL 4, TXIDs 5, gens 4, 1 down, all checkpoint modes, checkpoint sub-steps interleaved with the application")],
-        mc_thorough=[("MC_Core_asis.cfg", "same with versions 3"), ("MC_Core_asis4.cfg", "same with versions 4")],
+        mc=[("MC_Core_q.cfg", "code as it is: pages 3, versions 2, WAL 4, TXIDs 5, gens 4, 1 down, all checkpoint modes, checkpoint sub-steps interleaved with the application")],
+        mc_thorough=[("MC_Core_asis.cfg", "same with versions 3"), ("MC_Core_asis4.cfg", "same with versions 4"), ("MC_Core_pinned.cfg", "NEGATIVE CONTROL: the pinned transitions (before the fix: commits) - TLC must find the F1/F2/G1 data-loss histories")],
         sim=[("Sim_Core_run.cfg", 80, 1200, 40), ("Sim_Core_gated.cfg", 100, 2000, 45)],
         dump=("Dump_Core.cfg", 250, 6000),
         random=dict(n=80, n_thorough=1500, length=28, with_down=False, with_state_loss=False),
@@ -32,7 +32,7 @@ PLANS = {
         nontrivial="distinct schedule with at least one acknowledgement after application writes (restore compared with the source)",
     ),
     "C04": dict(
-        mc=[("MC_Core_q.cfg", "as-is code modulo known findings (stop/start of the same object, new process, crash, app activity incl. all checkpoint modes while down); versions 2")],
+        mc=[("MC_Core_q.cfg", "code as it is (stop/start of the same object, new process, crash, app activity incl. all checkpoint modes while down); versions 2")],
         mc_thorough=[("MC_Core_asis.cfg", "versions 3"), ("MC_Core_asis4.cfg", "versions 4"), ("MC_Core_down2.cfg", "2 downs")],
         sim=[("Sim_Core_down.cfg", 250, 2500, 45)],
         dump=None,
